@@ -14,7 +14,8 @@
    CAS's expected operand IS that loaded value.  With a failed CAS the generated step says LContinue
    (retry); the model has no such transition and the C05 theorems do not cover the concurrent retry. *)
 From Coq Require Import ZArith Bool Lia List.
-From SG Require Import Base.Prelude Base.GoInt Base.GoFloat Model.LRU Model.Hotspot Model.HotspotStep.
+From SG Require Import Base.Prelude Base.GoInt Base.GoFloat Model.LRU Model.Hotspot Model.HotspotStep
+  Proofs.HotspotRoundProofs.
 From Gen Require Import Leaf_gen.
 Import ListNotations.
 #[local] Open Scope Z_scope.
@@ -154,5 +155,21 @@ Proof.
   rewrite ?Et, ?Z.eqb_refl; do 2 (cbn [lru_set]; rewrite ?Z.eqb_refl); try reflexivity.
 Qed.
 
+(* ... which Proofs/HotspotRoundProofs.v shows (Flocq) for every spacing below 2^53 ms - far beyond the
+   guard of the C05 throttling theorems (2^32 * duration_ms < 2^53) *)
+Lemma leaf_round_is_model f : leaf_i64_of_round f = i64_of_round f.
+Proof. reflexivity. Qed.
+
+Lemma hotspot_throttle_step_ok r m now_ms k b :
+  r_behavior r <> 0 ->
+  Z.abs (raw_interval r k b) < 2 ^ 53 ->
+  interp (act_throttle r k (opt_z (lru_find k (m_time m)))) m (throttle_step_on r m now_ms k b)
+  = perform_checking r m (i64 now_ms) k b.
+Proof.
+  intros Hb Hx. apply hotspot_throttle_step_ok_if; [exact Hb|].
+  rewrite leaf_round_is_model. apply round_trip_small. exact Hx.
+Qed.
+
 Print Assumptions hotspot_reject_step_ok.
 Print Assumptions hotspot_throttle_step_ok_if.
+Print Assumptions hotspot_throttle_step_ok.
